@@ -17,6 +17,7 @@ EXPLANATION = (
     "kernels (solve bodies) other than the functions that are random by name. Not decided: equality of snapshots (runtime); floating point reproducibility "
     "is assumed from determinism of the callee set."
     ' (R5) in Interpreter::step every whole-plan solve() sits in the plan traversal nested inside the step-counter loop, in every branch.'
+    ' (R6) a sequence collected while iterating a hash-ordered field of a value (MechTable::col_names, MechRecord::field_names ...) is never used position-wise.'
 )
 CRATES = X.FXN_CRATES
 NONDET = re.compile(r"^std::time::|^rand::|^rand_core::|^getrandom::|^std::env::|SystemTime|Instant::now|thread_rng|^std::process::id")
